@@ -106,10 +106,10 @@ theorem reset_cases {r : Recv} {code finalOffset received maxData : Nat}
     (∃ fo, r.finalOffset = some fo ∧ fo ≠ finalOffset ∧ res = .error (.finalSize "inconsistent value")) ∨
     (r.finalOffset = none ∧ r.end_ > finalOffset ∧ res = .error (.finalSize "lower than high water mark")) ∨
     (r.resetSizeErr finalOffset = none ∧
-      (finalOffset > r.sentMaxStreamData ∨ received + (finalOffset - r.end_) > maxData) ∧
+      (r.isReceiving = true ∧ (finalOffset > r.sentMaxStreamData ∨ received + (finalOffset - r.end_) > maxData)) ∧
       res = .error (.flowControl "")) ∨
-    (r.resetSizeErr finalOffset = none ∧ finalOffset ≤ r.sentMaxStreamData ∧
-      received + (finalOffset - r.end_) ≤ maxData ∧
+    (r.resetSizeErr finalOffset = none ∧ (r.isReceiving = true → finalOffset ≤ r.sentMaxStreamData) ∧
+      (r.isReceiving = true → received + (finalOffset - r.end_) ≤ maxData) ∧
       ((∃ sz c, r.state = .resetRecvd sz c ∧ res = .ok (false, r)) ∨
        (∃ sz, r.state = .recv sz ∧
           res = .ok (true, { r with state := .resetRecvd finalOffset code, assembler := r.assembler.clear })))) := by
@@ -135,20 +135,34 @@ theorem reset_cases {r : Recv} {code finalOffset received maxData : Nat}
     simp only [hse] at h
     right; right
     unfold Recv.resetTail at h
+    simp only [Gen.resetDuplicateBeforeCredit, Bool.true_and] at h
+    split at h
+    · -- already reset: a no-op before any flow-control test
+      rename_i hnr
+      have hnr' : r.isReceiving = false := by simpa using hnr
+      simp only [Option.some.injEq] at h
+      right
+      refine ⟨rfl, fun hx => by rw [hnr'] at hx; contradiction, fun hx => by rw [hnr'] at hx; contradiction, ?_⟩
+      unfold Recv.isReceiving at hnr'
+      split at hnr'
+      · contradiction
+      · rename_i sz c hst; exact Or.inl ⟨sz, c, hst, h.symm⟩
+    rename_i hrc
+    have hrc' : r.isReceiving = true := by simpa using hrc
     split at h
     · contradiction
     · rename_i e hcc
       simp only [Option.some.injEq] at h
       rcases creditConsumedBy_cases hcc with ⟨hh, he⟩ | ⟨_, hh, he⟩ | ⟨_, _, he⟩
-      · left; exact ⟨rfl, Or.inl hh, by rw [← h, ← (Except.error.inj he)]⟩
-      · left; exact ⟨rfl, Or.inr hh, by rw [← h, ← (Except.error.inj he)]⟩
+      · left; exact ⟨rfl, ⟨hrc', Or.inl hh⟩, by rw [← h, ← (Except.error.inj he)]⟩
+      · left; exact ⟨rfl, ⟨hrc', Or.inr hh⟩, by rw [← h, ← (Except.error.inj he)]⟩
       · contradiction
     · rename_i nb hcc
       rcases creditConsumedBy_cases hcc with ⟨_, he⟩ | ⟨_, _, he⟩ | ⟨h3, h4, _⟩
       · contradiction
       · contradiction
       · right
-        refine ⟨rfl, h3, h4, ?_⟩
+        refine ⟨rfl, fun _ => h3, fun _ => h4, ?_⟩
         split at h
         · rename_i sz c hst
           simp only [Option.some.injEq] at h
